@@ -29,7 +29,8 @@ RULE = (
     "hypothesis-generated cases: served regular file (content = random non-zero pattern tiled to a size from "
     "{0,1,2,255..257,4095..4097,65535..65537,70000,100000, random 0..102400}) or a served directory, plus 1-4 "
     "attribute operations by path (SFTPClient) or by open handle (SFTPFile, opened 'r' or 'r+'): truncate to "
-    "{0,1,len-1,len,len+1,2*len,70000,random 0..200000, 2^32+k sparse}, chmod 0..0o777, utime ints 0..2^31-1 or None, "
+    "{0,1,len-1,len,len+1,2*len,70000,random 0..200000, 2^32+k sparse}, chmod 0..0o7777 (permission bits and set-uid/set-gid/sticky, "
+    "files by path and by handle, directories by path), utime ints 0..2^31-1 or None, "
     "chown to arbitrary ids (root) or own ids; oracle = twin file under os.truncate/os.chmod/os.utime/os.chown, compared "
     "after every op (bytes, size, mode, uid, gid; atime/mtime after utime). non-trivial = a truncate of a non-empty file to a "
     "different size, or a chmod/utime/chown that changes the attribute's value; distinct by SHA-1 of the case"
@@ -59,7 +60,15 @@ _target = st.one_of(
 )
 _weights_target = st.one_of(_target, _target, _target, _target)
 
-_mode = st.one_of(st.integers(0, 0o777), st.sampled_from([0, 0o777, 0o644, 0o600, 0o755, 0o400, 0o200, 0o100, 0o007]))
+# the whole os.chmod domain: permission bits and set-uid / set-gid / sticky (whatever the local filesystem does with
+# the latter for this user on files / directories is what the twin shows)
+_mode = st.one_of(
+    st.integers(0, 0o777),
+    st.integers(0, 0o7777),
+    st.integers(0, 0o7777),
+    st.builds(lambda hi, lo: (hi << 9) | lo, st.integers(1, 7), st.sampled_from([0, 0o777, 0o755, 0o644, 0o711, 0o070, 0o001])),
+    st.sampled_from([0, 0o777, 0o644, 0o600, 0o755, 0o400, 0o200, 0o100, 0o007, 0o7777, 0o4755, 0o2755, 0o1777, 0o6711]),
+)
 _time = st.one_of(st.integers(0, 2**31 - 1), st.sampled_from([0, 1, 2**31 - 1, 1000000000, 86400]))
 _times = st.one_of(st.none(), st.tuples(_time, _time))
 if IS_ROOT:
@@ -177,6 +186,14 @@ def execute(ctx, case):
                     os.chmod(twin, arg)
                     if _mode_bits(before.st_mode) != arg:
                         nontrivial = True
+                    tgt = "dir" if kind == "dir" else via.split(":")[0]
+                    for bit, name in ((0o4000, "setuid"), (0o2000, "setgid"), (0o1000, "sticky")):
+                        if arg & bit:
+                            classes.add("chmod:%s:%s" % (name, tgt))
+                        elif before.st_mode & bit:
+                            classes.add("chmod:clears-%s" % name)
+                    if _mode_bits(os.stat(twin).st_mode) != arg:
+                        classes.add("chmod:os-drops-requested-bits")
                 elif op == "utime":
                     os.utime(twin, None if arg is None else tuple(arg))
                     nontrivial = True
@@ -248,6 +265,10 @@ def execute(ctx, case):
                 if a != b:
                     if op == "chown" and fld in ("uid", "gid") and (s.st_uid, s.st_gid) == (t.st_gid, t.st_uid):
                         fld = "uid+gid-swapped"
+                    if fld == "mode" and not ((a ^ b) & ~0o7000):
+                        fld = "mode-special-bits"  # only set-uid / set-gid / sticky differ
+                    if fld.startswith("mode"):
+                        a, b = oct(a), oct(b)
                     ctx.violation("stat", "%s:%s" % (op, fld), jcase, "%s: served st_%s=%r, twin st_%s=%r" % (where, fld, a, fld, b))
                     return
             if kind == "file":
